@@ -1660,7 +1660,7 @@ func c07Report(r *rep.Report, in *c07Input, res c07Result) {
 func TestVerifC07(t *testing.T) {
 	r := rep.New("c07-enum")
 	defer r.Write()
-	r.Rule = "odometer over suite directives (mode x relevant protocols/versions/codecs/compressions subsets x the 16 relies-on combinations) x test-case sets (1-3 tests, 5 stream types, default/explicit service+method) x config-case sets (whole reduced universe, sets parsed from shipped/typical configs, every singleton of a reduced universe) x 3 run modes, plus two-suite loads whose twin differs in name and/or mode, plus every directive combination with test-case sets that pre-fill the runner-owned request fields (9 templates: client_tls_creds, server_tls_cert, http_version/protocol/codec/compression/message_receive_limit at low, middle and high values) against the universe and the default config, plus suites listing two or three values on an axis (compressions {identity,gzip}, {gzip,identity}, {gzip,br}, {identity,zstd}, {identity,gzip,zstd} x 4 protocol x 4 version x 3 codec selections x 4 relies-on combinations) against the universe and the named sets, plus pairs of suites with path-shaped names (suite names Echo, Echo/v2, Echo/v2/x, Alpha x test names ping, v2/ping, x/ping, v2/x/ping, ../Echo/ping, ../Echo/v2/ping; every axis pinned and relies_on_tls so that no component separates suite and test name, TLS left open in one or both, fully open; same / different stream type) against the universe and the default config, where a load is either refused or holds exactly one permutation per admitted (test, config case) pair, identically on five expansions; every element is distinct by construction; it is non-trivial when the reference iff admits at least one permutation (the others check that nothing is produced)"
+	r.Rule = "odometer over suite directives (mode x relevant protocols/versions/codecs/compressions subsets x the 16 relies-on combinations) x test-case sets (1-3 tests, 5 stream types, default/explicit service+method) x config-case sets (whole reduced universe, sets parsed from shipped/typical configs, every singleton of a reduced universe) x 3 run modes, plus two-suite loads whose twin differs in name and/or mode, plus every directive combination with test-case sets that pre-fill the runner-owned request fields (9 templates: client_tls_creds, server_tls_cert, http_version/protocol/codec/compression/message_receive_limit at low, middle and high values) against the universe and the default config, plus suites listing two or three values on an axis (compressions {identity,gzip}, {gzip,identity}, {gzip,br}, {identity,zstd}, {identity,gzip,zstd} x 4 protocol x 4 version x 3 codec selections x 4 relies-on combinations) against the universe and the named sets, plus pairs of suites with path-shaped names (suite names Echo, Echo/v2, Echo/v2/x, Alpha x test names ping, v2/ping, x/ping, v2/x/ping, ../Echo/ping, ../Echo/v2/ping; every axis pinned and relies_on_tls so that no component separates suite and test name, TLS left open in one or both, fully open; same / different stream type) against the universe and the default config, where a load is either refused or holds exactly one permutation per admitted (test, config case) pair, identically on five expansions, plus the request-level fields of the test-case template (use_get_http_method false / true x service x method each absent / present but empty / set, on every stream type, also with pre-filled protocol markers) x every relies-on combination, mode and protocol subset against the universe and the default config; every element is distinct by construction; it is non-trivial when the reference iff admits at least one permutation (the others check that nothing is produced)"
 	thorough := rep.Thorough()
 	plan := c07MakePlan(t, thorough)
 
